@@ -27,6 +27,8 @@ Trusted: this recogniser and that `TTV.SuiteUtilSkel.*I` read these forms as Pyt
 """
 import ast, os
 from harness.pydeferred2lean import find, body_of
+from harness import pynorm
+from harness.pynorm import canon
 
 
 def u(x):
@@ -83,6 +85,8 @@ def filter_by_ids(fn):
 
     def action(body):
         b = nocomment(body)
+        if len(b) >= 2 and u(b[-1]) == 'return ' + x and action(b[:-1]) == '.filterChildrenInPlace':
+            return '.filterChildrenInPlace'           # an explicit `return x` where the block would fall through to the final `return x`
         if len(b) == 1 and u(b[0]) == 'return %s.filter_by_ids(%s)' % (x, ids):
             return '.delegate'
         # if x.id() in ids: return x [else:] return <replacement>
@@ -129,13 +133,22 @@ def flatten_tests(fn):
     bad = '{ nonIterable := .unknown, unpackTest := .unknown, unpackBody := .unknown, wholeSteps := [] }'
     ps = [a.arg for a in fn.args.args]
     b = body_of(fn)
-    if len(ps) != 2 or len(b) != 2 or not isinstance(b[0], ast.Try) or not isinstance(b[1], ast.If):
+    # (after normalisation the statements that follow the try - whose handler returns - are its else-branch, and what follows the
+    #  returning `if` is no longer under an `else`)
+    if len(ps) != 2 or not b or not isinstance(b[0], ast.Try):
         return bad
     x, outer = ps
-    t, cond = b
+    t = b[0]
+    after = list(t.orelse) + b[1:]
+    if not after or not isinstance(after[0], ast.If):
+        return bad
+    cond = after[0]
+    whole = list(cond.orelse) + after[1:]
+    if cond.orelse and after[1:]:
+        return bad
     non = '.unknown'
     it = None
-    if not t.finalbody and not t.orelse and len(t.handlers) == 1 and len(t.body) == 1 and isinstance(t.body[0], ast.Assign) \
+    if not t.finalbody and len(t.handlers) == 1 and len(t.body) == 1 and isinstance(t.body[0], ast.Assign) \
             and isinstance(t.body[0].targets[0], ast.Name) and u(t.body[0].value) == 'iter(%s)' % x:
         it = t.body[0].targets[0].id
         h = t.handlers[0]
@@ -149,8 +162,11 @@ def flatten_tests(fn):
         acc = u(cb[0].targets[0])
         if u(cb[1].iter) == it and [u(y) for y in nocomment(cb[1].body)] == ['%s.extend(%s(%s))' % (acc, fn.name, cb[1].target.id)] and u(cb[2]) == 'return ' + acc:
             ub = '.extendRecursive'
+    # the same as one nested comprehension: return [item for test in tests for item in _flatten_tests(test)]
+    if it and len(cb) == 1 and isinstance(cb[0], ast.Return) and canon(cb[0].value) == canon('[b for a in %s for b in %s(a)]' % (it, fn.name)):
+        ub = '.extendRecursive'
     steps = []
-    eb = nocomment(cond.orelse)
+    eb = nocomment(whole)
     i = 0
     sid = None
     while i < len(eb):
@@ -166,6 +182,13 @@ def flatten_tests(fn):
                 steps.append('.firstId')
                 i += 3
                 continue
+        # the same with next(): suite_id = next((t.id() for t in iterate_tests(x)), None)
+        if isinstance(s, ast.Assign) and isinstance(s.targets[0], ast.Name) and sid is None and \
+                canon(s.value) == canon('next((t.id() for t in iterate_tests(%s)), None)' % x):
+            sid = s.targets[0].id
+            steps.append('.firstId')
+            i += 1
+            continue
         if isinstance(s, ast.If) and not s.orelse and u(s.test) in ("hasattr(%s, 'sort_tests')" % x, "safe_hasattr(%s, 'sort_tests')" % x) \
                 and [u(y) for y in nocomment(s.body)] == ['%s.sort_tests()' % x]:
             steps.append('.sortIfHas')
@@ -197,10 +220,10 @@ def sorted_tests(fn):
             seen = s.targets[0].id
             d, r = b[i + 1], b[i + 2]
             over = None
-            if u(s.value) == 'Counter((case.id() for case in iterate_tests(%s)))' % x:
+            if canon(s.value) == canon('Counter((case.id() for case in iterate_tests(%s)))' % x):
                 over = '.iterateTests'
             if isinstance(d, ast.Assign) and isinstance(d.targets[0], ast.Name) and over and \
-                    u(d.value) == '{test_id: count for test_id, count in %s.items() if count > 1}' % seen and isinstance(r, ast.If) and not r.orelse \
+                    canon(d.value) == canon('{test_id: count for test_id, count in %s.items() if count > 1}' % seen) and isinstance(r, ast.If) and not r.orelse \
                     and u(r.test) == d.targets[0].id and len(r.body) == 1 and isinstance(r.body[0], ast.Raise) and u(r.body[0].exc).startswith('ValueError('):
                 steps.append('(.dupCheck %s)' % over)
                 i += 3
@@ -211,7 +234,8 @@ def sorted_tests(fn):
             steps.append('.flatten')
             i += 1
             continue
-        if tests and u(s) == "%s.sort(key=lambda item: (item[0] is not None, item[0] or ''))" % tests:
+        key = "lambda item: (item[0] is not None, item[0] or '')"
+        if tests and (canon(s) == canon('%s.sort(key=%s)' % (tests, key)) or canon(s) == canon('%s = sorted(%s, key=%s)' % (tests, tests, key))):
             steps.append('.sortByKey')
             i += 1
             continue
@@ -230,7 +254,7 @@ def sorted_tests(fn):
 
 
 # ---------------------------------------------------------------- TestProgram --load-list
-def load_list(init):
+def load_list(init, cls=None):
     b = body_of(init)
     idx = {u(s) if not isinstance(s, ast.If) else 'if ' + u(s.test): k for k, s in enumerate(b)}
     k_parse = idx.get('self.parseArgs(argv)')
@@ -241,6 +265,12 @@ def load_list(init):
     steps = []
     if k_ll is not None and not b[k_ll].orelse and n_ll == 1:
         body = nocomment(b[k_ll].body)
+        # the block moved into a parameterless helper method that returns nothing: read the helper's statements in its place
+        if len(body) == 1 and isinstance(body[0], ast.Expr) and isinstance(body[0].value, ast.Call) and not body[0].value.args and not body[0].value.keywords \
+                and isinstance(body[0].value.func, ast.Attribute) and u(body[0].value.func.value) == 'self' and cls is not None:
+            hs = [f for f in cls.body if isinstance(f, ast.FunctionDef) and f.name == body[0].value.func.attr and [a.arg for a in f.args.args] == ['self']]
+            if len(hs) == 1 and not any(isinstance(n, ast.Return) for n in ast.walk(hs[0])):
+                body = nocomment(body_of(hs[0]))
         src = lines = ids = None
         for s in body:
             if isinstance(s, ast.Assign) and isinstance(s.targets[0], ast.Name) and u(s.value) == "open(self.load_list, 'rb')" and src is None:
@@ -258,7 +288,7 @@ def load_list(init):
                 steps += ['.openRead', '.readLines']
                 continue
             if isinstance(s, ast.Assign) and isinstance(s.targets[0], ast.Name) and lines and \
-                    u(s.value) == "{line.strip().decode('utf-8') for line in %s}" % lines and ids is None:
+                    canon(s.value) == canon("{line.strip().decode('utf-8') for line in %s}" % lines) and ids is None:
                 ids = s.targets[0].id
                 steps.append('.idsFromLines')
                 continue
@@ -294,7 +324,7 @@ def loadList : LoadListSrc :=
 
 end TTV.Generated.SuiteSrc
 ''' % (iterate_tests(find(ts, 'iterate_tests')), filter_by_ids(find(ts, 'filter_by_ids')), flatten_tests(find(ts, '_flatten_tests')),
-       sorted_tests(find(ts, 'sorted_tests')), load_list(find(run, 'TestProgram.__init__')))
+       sorted_tests(find(ts, 'sorted_tests')), load_list(find(run, 'TestProgram.__init__'), find(run, 'TestProgram')))
 
 
 if __name__ == '__main__':
